@@ -25,14 +25,14 @@ def thorough_passes():
             (dict(nm=3, nr=3, K=(-1, 0, 1, 2), d=1), lambda n: any(abs(x) == 2 for c in n for x in c))]
 
 
-def check_model(net, bounds, interface, stats, rich=False):
+def check_model(net, bounds, interface, stats, rich=False, user_first=False):
     """All objective/direction cases for one (network, bounds). Returns list of (sig, case, detail)."""
     import numpy as np
     from cobra.exceptions import OPTLANG_TO_EXCEPTIONS_DICT, OptimizationError
 
     mets, rxns = families.as_data(net, bounds)
     fba = exactlp.FBA(mets, rxns)
-    model = families.build_model(mets, rxns, interface)
+    model = families.build_model(mets, rxns, interface, user_first=user_first)
     ids = [r[0] for r in rxns]
     out = []
     S = np.array([[r[1].get(m, 0) for r in rxns] for m in mets], dtype=float)
@@ -40,10 +40,12 @@ def check_model(net, bounds, interface, stats, rich=False):
     ubs = np.array([r[3] for r in rxns], dtype=float)
     for k, (obj, direction) in enumerate(families.objectives(ids, rich)):
         case = {"net": [list(c) for c in net], "bounds": [[_j(a), _j(b)] for a, b in bounds], "interface": interface,
-                "objective": obj, "direction": direction}
+                "objective": obj, "direction": direction, "user_first": user_first}
 
         def bad(check, detail, **extra):
             s = {"check": check, "interface": interface, "direction": direction, "exact": st}
+            if user_first:
+                s["user_constraint_first"] = True
             s.update(extra)
             out.append((s, case, f"{detail}\nmodel: {rxns}\nobjective {obj} {direction}"))
 
@@ -51,8 +53,15 @@ def check_model(net, bounds, interface, stats, rich=False):
         stats["evaluations"] = stats.get("evaluations", 0) + 1
         stats["exact:" + st] = stats.get("exact:" + st, 0) + 1
         try:
-            model.objective = {model.reactions.get_by_id(r): c for r, c in obj.items()}
-            model.objective_direction = direction
+            if k % 2:
+                # direction first, objective second (assigning an objective must keep the direction)
+                model.objective_direction = direction
+                model.objective = {model.reactions.get_by_id(r): c for r, c in obj.items()}
+            else:
+                model.objective = {model.reactions.get_by_id(r): c for r, c in obj.items()}
+                model.objective_direction = direction
+            if model.objective_direction != direction:
+                bad("objective direction is not the one that was set", f"{model.objective_direction} vs {direction}")
             sol = model.optimize()
         except Exception as exc:
             bad("optimize raised", repr(exc))
@@ -171,6 +180,9 @@ def run_task(payload):
             stats["models"] = stats.get("models", 0) + 1
             for interface in payload["interfaces"]:
                 violations.extend(check_model(net, bounds, interface, stats, rich=payload.get("rich", False)))
+            if stats["models"] % 4 == 0:
+                # the same model with a user variable/constraint added before any metabolite or reaction
+                violations.extend(check_model(net, bounds, "glpk", stats, rich=False, user_first=True))
     return {"violations": violations[:200], "stats": stats, "n_violations": len(violations)}
 
 
@@ -178,7 +190,7 @@ def replay(case):
     net = tuple(tuple(c) for c in case["net"])
     bounds = tuple((_u(a), _u(b)) for a, b in case["bounds"])
     stats = {}
-    out = check_model(net, bounds, case["interface"], stats, rich=True)
+    out = check_model(net, bounds, case["interface"], stats, rich=True, user_first=case.get("user_first", False))
     return [{"sig": s, "detail": d} for s, c, d in out
             if c["objective"] == case["objective"] and c["direction"] == case["direction"]]
 
